@@ -19,6 +19,10 @@ pub enum Em {
     DescCounter,
     DescGauge,
     DescHistogram,
+    /// fault: the wrapped recorder panics during this registration (caught by the emitter)
+    RegCounterPanics,
+    /// fault: the wrapped recorder emits a metric of its own while handling this registration
+    RegCounterReenters,
 }
 
 #[derive(Clone, Debug, Serialize, Deserialize)]
@@ -38,6 +42,10 @@ pub struct Plan {
     /// through `metrics::with_recorder` (otherwise the wrapper is built stand-alone)
     #[serde(default)]
     pub via_install: bool,
+    /// fault: the first call that enters the wrapped recorder stays inside for this many
+    /// milliseconds of virtual time
+    #[serde(default)]
+    pub slow_inside_ms: u64,
 }
 
 #[derive(Clone, Debug)]
@@ -47,6 +55,10 @@ struct EmEv {
     ret: u64,
     reached: bool,
     handle_live: bool,
+    /// the recorder was made to panic during this emission
+    faulted: bool,
+    /// the recorder's own emission made from inside this call never came back to it
+    nested_lost: bool,
 }
 
 pub struct C20Recoverable;
@@ -69,7 +81,14 @@ impl Scenario for C20Recoverable {
         let mut emitters = vec![];
         for _ in 0..n {
             let k = r.range(1, 5);
-            emitters.push((0..k).map(|_| match r.below(6) {
+            emitters.push((0..k).map(|_| match r.below(7) {
+                6 => {
+                    if r.chance(500) {
+                        Em::RegCounterPanics
+                    } else {
+                        Em::RegCounterReenters
+                    }
+                }
                 0 => Em::RegCounter,
                 1 => Em::RegGauge,
                 2 => Em::RegHistogram,
@@ -78,7 +97,7 @@ impl Scenario for C20Recoverable {
                 _ => Em::DescHistogram,
             }).collect());
         }
-        Plan { emitters, recover: r.chance(700), delay: r.below(4) as u32, install_fails: r.chance(300), keep_handles: r.chance(300), via_install: r.chance(400) }
+        Plan { emitters, recover: r.chance(700), delay: r.below(4) as u32, install_fails: r.chance(300), keep_handles: r.chance(300), via_install: r.chance(400), slow_inside_ms: if r.chance(150) { *r.pick(&[1u64, 250, 1000]) } else { 0 } }
     }
     fn execute(&self, plan: &Plan, sched: &SchedSpec) -> RunReport {
         // one run = one process life as far as the global recorder cell is concerned
@@ -86,6 +105,7 @@ impl Scenario for C20Recoverable {
         let log = new_log();
         let shared = Shared::new(log.clone());
         shared.yield_inside.store(true, Ordering::SeqCst);
+        shared.sleep_inside_ns.store(plan.slow_inside_ms * 1_000_000, Ordering::SeqCst);
         let evs: Arc<Mutex<Vec<EmEv>>> = Arc::new(Mutex::new(vec![]));
         // (rec inv, rec ret, in_flight at return, intact)
         let recov: Arc<Mutex<(u64, u64, i64, bool)>> = Arc::new(Mutex::new((0, 0, 0, true)));
@@ -111,6 +131,8 @@ impl Scenario for C20Recoverable {
                 let log = log2.clone();
                 let kept = kept.clone();
                 let keep = p.keep_handles;
+                let sh_e = sh2.clone();
+                let via_install = p.via_install;
                 hs.push(dsim::spawn(&format!("emitter{}", i + 1), move || {
                     let tid = dsim::tid();
                     // the recorder as the emitter sees it: the stand-alone wrapper, or whatever the
@@ -126,6 +148,8 @@ impl Scenario for C20Recoverable {
                         let inv = dsim::step();
                         let key = Key::from_name("c20_metric");
                         let mut live = false;
+                        let mut faulted = false;
+                        let mut nested_lost = false;
                         match em {
                             Em::RegCounter => {
                                 let h = with(&wrapped, |r| r.register_counter(&key, &MD));
@@ -154,6 +178,33 @@ impl Scenario for C20Recoverable {
                                     kept.lock().unwrap().push(Box::new(h));
                                 }
                             }
+                            Em::RegCounterPanics => {
+                                crate::doubles::set_flag(&sh_e.panic_next, tid);
+                                let res = std::panic::catch_unwind(std::panic::AssertUnwindSafe(|| {
+                                    let _ = with(&wrapped, |r| r.register_counter(&key, &MD));
+                                }));
+                                // (still armed = the call never entered the recorder: inert wrapper)
+                                faulted = !crate::doubles::take_flag(&sh_e.panic_next, tid);
+                                if let Err(p) = res {
+                                    if !p.is::<crate::doubles::DoublePanic>() {
+                                        std::panic::resume_unwind(p);
+                                    }
+                                }
+                            }
+                            Em::RegCounterReenters => {
+                                crate::doubles::set_flag(&sh_e.reenter_next, tid);
+                                let n0 = log.lock().unwrap().len();
+                                let h = with(&wrapped, |r| r.register_counter(&key, &MD));
+                                let fired = !crate::doubles::take_flag(&sh_e.reenter_next, tid);
+                                drop(h);
+                                // through the installed wrapper the recorder's own emission comes back to
+                                // it while the recovery handle is alive at that moment; stand-alone it goes
+                                // to the (absent) global recorder
+                                let nested = log.lock().unwrap()[n0..].iter().filter(|e| e.tid == tid && e.name == "nested_emission" && e.op == "register_counter").count();
+                                if fired && via_install && nested == 0 && !sh_e.finalised.load(Ordering::SeqCst) {
+                                    nested_lost = true;
+                                }
+                            }
                             Em::DescCounter => with(&wrapped, |r| r.describe_counter(KeyName::from_const_str("c20_metric"), None, "d".into())),
                             Em::DescGauge => with(&wrapped, |r| r.describe_gauge(KeyName::from_const_str("c20_metric"), None, "d".into())),
                             Em::DescHistogram => with(&wrapped, |r| r.describe_histogram(KeyName::from_const_str("c20_metric"), None, "d".into())),
@@ -162,7 +213,7 @@ impl Scenario for C20Recoverable {
                         let l = log.lock().unwrap();
                         let reached = l.iter().any(|e| e.tid == tid && e.step >= inv && e.step <= ret && (e.op.starts_with("register") || e.op.starts_with("describe")));
                         drop(l);
-                        evs.lock().unwrap().push(EmEv { tid, inv, ret, reached, handle_live: live });
+                        evs.lock().unwrap().push(EmEv { tid, inv, ret, reached, handle_live: live, faulted, nested_lost });
                     }
                 }));
             }
@@ -255,7 +306,10 @@ impl Scenario for C20Recoverable {
                 if v.is_some() {
                     break;
                 }
-                if e.ret < rc.0 && !e.reached {
+                if e.nested_lost && e.ret < rc.0 {
+                    v = violation("nested-emission-lost-while-live", format!("t{} (steps {}..{}): the wrapped recorder emitted a metric of its own through the installed wrapper while the recovery handle was alive, and it was dropped", e.tid, e.inv, e.ret));
+                }
+                if e.ret < rc.0 && !e.reached && !e.faulted {
                     v = violation("emission-lost-while-live", format!("emission by t{} (steps {}..{}) completed before recovery started at {} but never reached the recorder", e.tid, e.inv, e.ret, rc.0));
                 }
                 if e.inv > rc.1 && (e.reached || e.handle_live) {
@@ -264,12 +318,12 @@ impl Scenario for C20Recoverable {
                     // this late emission upgraded its weak reference
                     // (directly or through a chain of overlapping calls that each kept the strong count up)
                     let mut frontier = 0u64;
-                    for o in evs.iter().filter(|o| o.reached && o.inv < rc.1) {
+                    for o in evs.iter().filter(|o| (o.reached || o.faulted) && o.inv < rc.1) {
                         frontier = frontier.max(o.ret);
                     }
                     loop {
                         let mut nf = frontier;
-                        for o in evs.iter().filter(|o| o.reached && o.inv < frontier && !(o.tid == e.tid && o.inv == e.inv)) {
+                        for o in evs.iter().filter(|o| (o.reached || o.faulted) && o.inv < frontier && !(o.tid == e.tid && o.inv == e.inv)) {
                             nf = nf.max(o.ret);
                         }
                         if nf == frontier {
